@@ -29,6 +29,9 @@ fn plan(tier: Tier) -> (u64, Vec<&'static str>, u64) {
             return (0, vec![*m], 3);
         }
     }
+    if std::env::var("C11_SMALL_ONLY").is_ok() {
+        return (60_000, vec![], 0);
+    }
     match tier {
         Tier::Quick => (1200, QUICK_MODELS.to_vec(), 6),
         Tier::Thorough => (60_000, ALL_MODELS.to_vec(), 12),
@@ -400,6 +403,7 @@ fn run_small(rng: &mut Rng, tier: Tier) -> CaseOut {
             // the symbolic reference disagrees with the explicit oracle: a harness problem, not a
             // verdict about the library
             out.count("osym_oracle_disagreement");
+            eprintln!("O-SYM/O-SEM DISAGREEMENT on {}: {}\n{}\nS={:?}\nT={:?}", f.canon(), diff, world.net.to_aeon(), sets_json(&world, &HashMap::from([("S".to_string(), es.clone())])), sets_json(&world, &HashMap::from([("T".to_string(), et.clone())])));
             out.inconclusive(&format!("O-sym and O-sem disagree on {}: {}", f.canon(), diff.chars().take(80).collect::<String>()));
             return out;
         }
